@@ -1,23 +1,21 @@
 SPECIFICATION Spec
 CONSTANTS
-  MaxPg = 3
-  MaxOps = 4
+  MaxPg = 4
+  MaxOps = 7
   BlockOf <- BlockL1
   LockPg = 0
-  AllowWAL = FALSE
-  FinModes = {"DELETE"}
+  AllowWAL = TRUE
+  FinModes = {"DELETE", "TRUNCATE", "PERSIST"}
   AllowSpill = TRUE
   AllowBeyond = FALSE
   FixBeyond = TRUE
-  AllowNoSync = FALSE
+  AllowNoSync = TRUE
   FixOOB = TRUE
   FixFirstRb = TRUE
   AllowCrash = FALSE
   FixJournalNoPS = TRUE
   FixModeOnOpen = TRUE
   AllowRetain = TRUE
-  Emit = "idle"
-VIEW view
+  Emit = "end"
 INVARIANTS NoFault C04_Checksum C02_Image C02_Delta C02_Outcome C09_Chain CacheSound EmitInv
-PROPERTIES C02_AtMostOne
 CHECK_DEADLOCK FALSE
